@@ -8,8 +8,33 @@ import Hv.Storage.DiskLemmas
 
 namespace Hv.BlockStore
 
-/-- the oracle behaves like the real encoder: non-empty buffers give well-formed blocks that decode to the buffer -/
-def MkOk (mk : Mk) : Prop := ∀ es, es ≠ [] → (mk es).WF ∧ (mk es).ents = es
+/-- the oracle behaves like the real encoder: a non-empty batch gives a well-formed block that
+    decodes to the batch —
+    `CompressEntries` / `WriteBuffer.Flush` on a non-empty batch that fits the 16-bit count field.
+    Nothing is assumed about a larger batch: its count field wraps (see `Block.cnt`). -/
+def MkOk (mk : Mk) : Prop := ∀ es, es ≠ [] → es.length ≤ maxEnts → (mk es).WF ∧ (mk es).ents = es
+
+/-- the encoder used by closed witnesses: `p` payload bytes per block, the real 16-bit count field -/
+def mkP (p : Nat) : Mk := fun es =>
+  { hdr := [p, 0, 0, 0, 0, 0, 0, 0, es.length % 256, es.length / 256 % 256, 0, 0, 0, 0, 0, 0], plen := p, ents := es }
+
+theorem mkP_cnt (p : Nat) (es : List Op) : (mkP p es).cnt = es.length % 65536 := by
+  simp only [Block.cnt, mkP, List.getD_eq_getElem?_getD, List.getElem?_cons_succ, List.getElem?_cons_zero, Option.getD_some]
+  omega
+
+theorem mkP_ok (p : Nat) (hp : 0 < p) : MkOk (mkP p) := by
+  intro es _ hlen
+  refine ⟨⟨rfl, ?_, hp, ?_⟩, rfl⟩
+  · simp [le32, mkP]
+  · rw [mkP_cnt]; show es.length % 65536 = es.length
+    unfold maxEnts at hlen; omega
+
+/-- beyond the count field the same encoder produces a block the reader rejects -/
+theorem mkP_wraps (p : Nat) (es : List Op) (h : maxEnts < es.length) : (mkP p es).cnt ≠ (mkP p es).ents.length := by
+  rw [mkP_cnt]; show es.length % 65536 ≠ es.length
+  unfold maxEnts at h
+  have : es.length % 65536 < 65536 := Nat.mod_lt _ (by decide)
+  omega
 
 def HdrOk (f : List Cell) (nl : Nat) : Prop := f.take 64 = fhCells nl
 
@@ -75,6 +100,7 @@ structure WPost (d : Disk) (w : WSt) (f : List Cell) (d' : Disk) (w' : WSt) (nbs
   path : w'.path = w.path
   nl : w'.nl = w.nl
   bs : w'.bs = w.bs
+  cnt : w'.buf.length < maxEnts
 
 theorem header_rewrite_noop (d : Disk) (w : WSt) (f : List Cell) (h : WInv d w f) :
     d.apply (.write w.path 0 (fhCells w.nl)) = d := by
@@ -86,14 +112,17 @@ theorem header_rewrite_noop (d : Disk) (w : WSt) (f : List Cell) (h : WInv d w f
 
 theorem render_nil_append (f : List Cell) : f ++ render [] = f := by simp [render]
 
-theorem WPost.refl {d : Disk} {w : WSt} {f : List Cell} (h : WInv d w f) : WPost d w f d w [] :=
-  ⟨by simp, by rw [render_nil_append]; exact h, fun _ _ => rfl, rfl, rfl, rfl⟩
+theorem maxEnts_pos : 0 < maxEnts := by decide
+
+theorem WPost.refl {d : Disk} {w : WSt} {f : List Cell} (h : WInv d w f) (hc : w.buf.length < maxEnts) :
+    WPost d w f d w [] :=
+  ⟨by simp, by rw [render_nil_append]; exact h, fun _ _ => rfl, rfl, rfl, rfl, hc⟩
 
 theorem flushW_nil (mk : Mk) (w : WSt) (h : w.buf = []) : flushW mk w = (w, []) := by
   unfold flushW; rw [h]
 
 theorem flushW_cons (mk : Mk) (w : WSt) (h : w.buf ≠ []) : flushW mk w =
-    ({ w with pos := w.pos + 16 + (mk w.buf).plen, buf := [], bufSize := 0 },
+    ({ w with pos := w.pos + 16 + (mk w.buf).plen, buf := [], bufSize := 0, szs := [] },
       [.write w.path w.pos (hdrCells (mk w.buf)), .write w.path (w.pos + 16) (payCells (mk w.buf)),
        .write w.path 0 (fhCells w.nl)]) := by
   unfold flushW
@@ -101,13 +130,52 @@ theorem flushW_cons (mk : Mk) (w : WSt) (h : w.buf ≠ []) : flushW mk w =
   · rename_i hb; exact absurd hb h
   · rfl
 
-theorem flushW_spec (mk : Mk) (hmk : MkOk mk) (d : Disk) (w : WSt) (f : List Cell) (h : WInv d w f) :
+/-- the disk effect of a flush, whatever the encoder makes of the buffer: one block appended -/
+theorem flushW_inv (mk : Mk) (d : Disk) (w : WSt) (f : List Cell) (h : WInv d w f) (hb : w.buf ≠ []) :
+    WInv (d.applyAll (flushW mk w).2) (flushW mk w).1 (f ++ blockCells (mk w.buf)) ∧
+      ∀ q, q ≠ w.path → (d.applyAll (flushW mk w).2).get q = d.get q := by
+  rw [flushW_cons mk w hb]
+  · simp only [Disk.applyAll_cons, Disk.applyAll_nil]
+    -- first write: block header appended
+    have g1 : ∀ q, (d.apply (.write w.path w.pos (hdrCells (mk w.buf)))).get q =
+        if q = w.path then some (f ++ hdrCells (mk w.buf)) else d.get q := by
+      intro q
+      have := Disk.apply_write_get d w.path q w.pos (hdrCells (mk w.buf)) f h.file
+      rw [h.atEnd, splice_end] at this
+      rw [h.atEnd]; exact this
+    have g2 : ∀ q, ((d.apply (.write w.path w.pos (hdrCells (mk w.buf)))).apply
+          (.write w.path (w.pos + 16) (payCells (mk w.buf)))).get q =
+        if q = w.path then some (f ++ blockCells (mk w.buf)) else d.get q := by
+      intro q
+      have hd1 : (d.apply (.write w.path w.pos (hdrCells (mk w.buf)))).get w.path = some (f ++ hdrCells (mk w.buf)) := by
+        simp [g1]
+      have := Disk.apply_write_get _ w.path q (w.pos + 16) (payCells (mk w.buf)) _ hd1
+      have hl : w.pos + 16 = (f ++ hdrCells (mk w.buf)).length := by simp [h.atEnd]
+      rw [hl] at this ⊢
+      rw [splice_end] at this
+      rw [this]
+      by_cases hq : q = w.path
+      · simp [hq, blockCells, List.append_assoc]
+      · simp [hq, g1]
+    have inv2 : WInv ((d.apply (.write w.path w.pos (hdrCells (mk w.buf)))).apply
+          (.write w.path (w.pos + 16) (payCells (mk w.buf))))
+        { w with pos := w.pos + 16 + (mk w.buf).plen, buf := [], bufSize := 0, szs := [] } (f ++ blockCells (mk w.buf)) :=
+      ⟨by simp [g2], by simp [h.atEnd]; omega, h.hdr.append _⟩
+    have hno := header_rewrite_noop _ _ _ inv2
+    simp only at hno
+    rw [hno]
+    refine ⟨inv2, ?_⟩
+    intro q hq
+    simp [g2, hq]
+
+theorem flushW_spec (mk : Mk) (hmk : MkOk mk) (d : Disk) (w : WSt) (f : List Cell) (h : WInv d w f)
+    (hlen : w.buf.length ≤ maxEnts) :
     ∃ nbs, entsOf nbs = w.buf ∧ (flushW mk w).1.buf = [] ∧
       WPost d w f (d.applyAll (flushW mk w).2) (flushW mk w).1 nbs := by
   by_cases hb : w.buf = []
   · rw [flushW_nil mk w hb]
-    exact ⟨[], by simp [entsOf, hb], hb, WPost.refl h⟩
-  · obtain ⟨hwf, hents⟩ := hmk w.buf hb
+    exact ⟨[], by simp [entsOf, hb], hb, WPost.refl h (by rw [hb]; exact maxEnts_pos)⟩
+  · obtain ⟨hwf, hents⟩ := hmk w.buf hb hlen
     rw [flushW_cons mk w hb]
     refine ⟨[mk w.buf], by simp [entsOf, hents], rfl, ?_⟩
     simp only [Disk.applyAll_cons, Disk.applyAll_nil]
@@ -134,19 +202,19 @@ theorem flushW_spec (mk : Mk) (hmk : MkOk mk) (d : Disk) (w : WSt) (f : List Cel
       · simp [hq, g1]
     have inv2 : WInv ((d.apply (.write w.path w.pos (hdrCells (mk w.buf)))).apply
           (.write w.path (w.pos + 16) (payCells (mk w.buf))))
-        { w with pos := w.pos + 16 + (mk w.buf).plen, buf := [], bufSize := 0 } (f ++ blockCells (mk w.buf)) :=
+        { w with pos := w.pos + 16 + (mk w.buf).plen, buf := [], bufSize := 0, szs := [] } (f ++ blockCells (mk w.buf)) :=
       ⟨by simp [g2], by simp [h.atEnd]; omega, h.hdr.append _⟩
     have hno := header_rewrite_noop _ _ _ inv2
     simp only at hno
     rw [hno]
     have hrender : render [mk w.buf] = blockCells (mk w.buf) := by simp [render]
-    refine ⟨by simpa using hwf, by rw [hrender]; exact inv2, ?_, rfl, rfl, rfl⟩
+    refine ⟨by simpa using hwf, by rw [hrender]; exact inv2, ?_, rfl, rfl, rfl, maxEnts_pos⟩
     intro q hq
     simp [g2, hq]
 
 theorem WPost.trans {d d1 d2 : Disk} {w w1 w2 : WSt} {f : List Cell} {a b : List Block}
     (h1 : WPost d w f d1 w1 a) (h2 : WPost d1 w1 (f ++ render a) d2 w2 b) : WPost d w f d2 w2 (a ++ b) := by
-  refine ⟨?_, ?_, ?_, h2.path.trans h1.path, h2.nl.trans h1.nl, h2.bs.trans h1.bs⟩
+  refine ⟨?_, ?_, ?_, h2.path.trans h1.path, h2.nl.trans h1.nl, h2.bs.trans h1.bs, h2.cnt⟩
   · intro x hx
     rcases List.mem_append.mp hx with hx | hx
     · exact h1.wf x hx
@@ -157,35 +225,39 @@ theorem WPost.trans {d d1 d2 : Disk} {w w1 w2 : WSt} {f : List Cell} {a b : List
   · intro q hq
     rw [h2.other q (by rw [h1.path]; exact hq), h1.other q hq]
 
-theorem addW_spec (mk : Mk) (hmk : MkOk mk) (d : Disk) (w : WSt) (f : List Cell) (h : WInv d w f) (e : Op) (sz : Nat) :
+theorem addW_spec (mk : Mk) (hmk : MkOk mk) (d : Disk) (w : WSt) (f : List Cell) (h : WInv d w f)
+    (hlen : w.buf.length < maxEnts) (e : Op) (sz : Nat) :
     ∃ nbs, entsOf nbs ++ (addW mk w e sz).1.buf = w.buf ++ [e] ∧
       WPost d w f (d.applyAll (addW mk w e sz).2) (addW mk w e sz).1 nbs := by
-  have h1 : WInv d { w with buf := w.buf ++ [e], bufSize := w.bufSize + sz } f := ⟨h.file, h.atEnd, h.hdr⟩
-  by_cases hge : w.bufSize + sz ≥ w.bs
-  · have : addW mk w e sz = flushW mk { w with buf := w.buf ++ [e], bufSize := w.bufSize + sz } := by
-      unfold addW; simp only; rw [if_pos hge]
+  have h1 : WInv d (w.push e sz) f := ⟨h.file, h.atEnd, h.hdr⟩
+  have hl1 : (w.push e sz).buf.length ≤ maxEnts := by simp [WSt.push]; omega
+  by_cases hge : (w.push e sz).full
+  · have : addW mk w e sz = flushW mk (w.push e sz) := by
+      unfold addW; rw [if_pos hge]
     rw [this]
-    obtain ⟨nbs, he, hbuf, hp⟩ := flushW_spec mk hmk d _ f h1
-    exact ⟨nbs, by rw [hbuf, he]; simp, ⟨hp.wf, hp.inv, hp.other, hp.path, hp.nl, hp.bs⟩⟩
-  · have : addW mk w e sz = ({ w with buf := w.buf ++ [e], bufSize := w.bufSize + sz }, []) := by
-      unfold addW; simp only; rw [if_neg hge]
+    obtain ⟨nbs, he, hbuf, hp⟩ := flushW_spec mk hmk d _ f h1 hl1
+    exact ⟨nbs, by rw [hbuf, he]; simp [WSt.push], ⟨hp.wf, hp.inv, hp.other, hp.path, hp.nl, hp.bs, hp.cnt⟩⟩
+  · have : addW mk w e sz = (w.push e sz, []) := by
+      unfold addW; rw [if_neg hge]
     rw [this]
-    refine ⟨[], by simp [entsOf], ?_⟩
-    exact ⟨by simp, by rw [render_nil_append]; exact h1, fun _ _ => rfl, rfl, rfl, rfl⟩
+    refine ⟨[], by simp [entsOf, WSt.push], ?_⟩
+    have hc : (w.push e sz).buf.length < maxEnts := by
+      simp only [WSt.full, not_or, Nat.not_le] at hge; exact hge.2
+    exact ⟨by simp, by rw [render_nil_append]; exact h1, fun _ _ => rfl, rfl, rfl, rfl, hc⟩
 
 theorem addManyW_spec (mk : Mk) (hmk : MkOk mk) (items : List (Op × Nat)) :
-    ∀ (d : Disk) (w : WSt) (f : List Cell), WInv d w f →
+    ∀ (d : Disk) (w : WSt) (f : List Cell), WInv d w f → w.buf.length < maxEnts →
     ∃ nbs, entsOf nbs ++ (addManyW mk w items).1.buf = w.buf ++ items.map (·.1) ∧
       WPost d w f (d.applyAll (addManyW mk w items).2) (addManyW mk w items).1 nbs := by
   induction items with
   | nil =>
-    intro d w f h
-    exact ⟨[], by simp [entsOf, addManyW], WPost.refl h⟩
+    intro d w f h hc
+    exact ⟨[], by simp [entsOf, addManyW], WPost.refl h hc⟩
   | cons it rest ih =>
-    intro d w f h
+    intro d w f h hc
     obtain ⟨e, sz⟩ := it
-    obtain ⟨a, ha, pa⟩ := addW_spec mk hmk d w f h e sz
-    obtain ⟨b, hb, pb⟩ := ih (d.applyAll (addW mk w e sz).2) (addW mk w e sz).1 _ pa.inv
+    obtain ⟨a, ha, pa⟩ := addW_spec mk hmk d w f h hc e sz
+    obtain ⟨b, hb, pb⟩ := ih (d.applyAll (addW mk w e sz).2) (addW mk w e sz).1 _ pa.inv pa.cnt
     refine ⟨a ++ b, ?_, ?_⟩
     · simp only [addManyW, entsOf_append, List.map_cons, List.append_assoc]
       rw [hb, ← List.append_assoc, ha]
@@ -193,12 +265,22 @@ theorem addManyW_spec (mk : Mk) (hmk : MkOk mk) (items : List (Op × Nat)) :
     · simp only [addManyW, Disk.applyAll_append]
       exact pa.trans pb
 
+theorem syncW_empty (c : Cfg) (mk : Mk) (d : Disk) (w : WSt) (f : List Cell) (h : WInv d w f) (hb : w.buf = []) :
+    (d.applyAll (syncW c mk w).2).get w.path = some f := by
+  have : syncW c mk w = (w, [] ++ [.write w.path 0 (fhCells w.nl)] ++ (if c.syncFsyncs then [.sync w.path] else [])) := by
+    simp only [syncW, flushW_nil mk w hb]
+  rw [this]
+  simp only [List.nil_append, Disk.applyAll_append, Disk.applyAll_cons, Disk.applyAll_nil]
+  rw [header_rewrite_noop _ _ _ h]
+  cases c.syncFsyncs <;> simp [Disk.applyAll, Disk.apply] <;> exact h.file
+
 /-- `Close`: everything buffered ends up in the file as whole blocks; nothing else changes -/
-theorem closeW_spec (c : Cfg) (mk : Mk) (hmk : MkOk mk) (d : Disk) (w : WSt) (f : List Cell) (h : WInv d w f) :
+theorem closeW_spec (c : Cfg) (mk : Mk) (hmk : MkOk mk) (d : Disk) (w : WSt) (f : List Cell) (h : WInv d w f)
+    (hlen : w.buf.length ≤ maxEnts) :
     ∃ nbs, entsOf nbs = w.buf ∧ (∀ b ∈ nbs, b.WF) ∧
       (d.applyAll (closeW c mk w)).get w.path = some (f ++ render nbs) ∧
       ∀ q, q ≠ w.path → (d.applyAll (closeW c mk w)).get q = d.get q := by
-  obtain ⟨nbs, he, _, hp⟩ := flushW_spec mk hmk d w f h
+  obtain ⟨nbs, he, _, hp⟩ := flushW_spec mk hmk d w f h hlen
   refine ⟨nbs, he, hp.wf, ?_, ?_⟩
   all_goals
     simp only [closeW, Disk.applyAll_append, Disk.applyAll_cons, Disk.applyAll_nil]
